@@ -18,6 +18,9 @@ from lib.vcommon import coq_list, coq_str
 
 MIDS = ["m0", "m1", "m2", "x"]
 BIDS = ["b0", "b1", "x"]
+# every file form read_neuroml2_file accepts for an include of the document handed to the function
+FORMS = [".nml", ".xml", ".nml.h5", ".h5", ".hdf5"]
+PARSER_FORMS = (".nml", ".xml", ".nml.h5")  # ... and those the include loop of _read_neuroml2 accepts (NeuroMLXMLParser path)
 
 
 class Gen:
@@ -58,7 +61,7 @@ class Gen:
         bios = [self.obj(BIDS) for _ in range(r.randint(0, 2))]
         incs = []
         for i in range(r.randint(0, 2)):
-            incs.append({"href": "inc%d.nml" % i, "morphs": [self.obj(MIDS) for _ in range(r.randint(0, 3))],
+            incs.append({"href": "inc%d%s" % (i, r.choice(FORMS + [".nml", ".nml"])), "morphs": [self.obj(MIDS) for _ in range(r.randint(0, 3))],
                          "bios": [self.obj(BIDS) for _ in range(r.randint(0, 2))], "missing": r.random() < 0.04})
         if wide:
             for i in MIDS:
@@ -70,6 +73,59 @@ class Gen:
                     o = self.obj([i])
                     (r.choice(incs)["bios"] if incs and r.random() < 0.5 else bios).append(o)
         return {"cells": cells, "morphs": morphs, "bios": bios, "incs": incs}
+
+
+    def history(self):
+        """calls in one process whose documents include the SAME paths while the included files are rewritten in between:
+        a definition changed / added / removed"""
+        r = self.rng
+        hrefs = ["inc0" + r.choice(FORMS), "inc1.nml"][:r.randint(1, 2)]
+        content = {h: {"morphs": [self.obj(MIDS) for _ in range(r.randint(1, 3))], "bios": [self.obj(BIDS) for _ in range(r.randint(0, 2))]}
+                   for h in hrefs}
+        steps = []
+        for k in range(3):
+            if k:
+                h = r.choice(hrefs)
+                c = content[h]
+                what = r.choice(["changed", "added", "removed"])
+                if what == "changed" and c["morphs"]:
+                    o = r.choice(c["morphs"])
+                    self.v += 1
+                    o = dict(o, v=self.v, kids=[r.randint(0, 9) for _ in range(r.randint(0, 3))])
+                    c["morphs"] = [o if x["id"] == o["id"] else x for x in c["morphs"]]
+                elif what == "added":
+                    c["morphs"] = c["morphs"] + [self.obj(MIDS)]
+                    c["bios"] = c["bios"] + [self.obj(BIDS)]
+                elif c["morphs"]:
+                    c["morphs"] = c["morphs"][1:]
+                content[h] = {"morphs": list(c["morphs"]), "bios": list(c["bios"])}
+            cells = []
+            for i in range(r.randint(1, 3)):
+                self.v += 1
+                cells.append({"list": "cells", "id": "c%d" % i, "rest": self.v, "m": {"attr": r.choice(MIDS), "emb": None},
+                              "b": self.slot(BIDS, False)})
+            steps.append({"cells": cells, "morphs": [], "bios": [self.obj(BIDS) for _ in range(r.randint(0, 1))],
+                          "incs": [{"href": h, "morphs": list(content[h]["morphs"]), "bios": list(content[h]["bios"]), "missing": False}
+                                   for h in hrefs]})
+        return steps
+
+
+def fixed_histories():
+    def cell(i, m):
+        return {"list": "cells", "id": "c%d" % i, "rest": 900 + i, "m": {"attr": m, "emb": None}, "b": {"attr": None, "emb": None}}
+
+    out = []
+    for form in (".nml", ".hdf5"):
+        h = "inc0" + form
+        out.append([
+            {"cells": [cell(0, "m0")], "morphs": [], "bios": [], "incs": [{"href": h, "morphs": [O("m0", 1, [1])], "bios": [], "missing": False}]},
+            # definition changed and another one added since the first call
+            {"cells": [cell(0, "m0"), cell(1, "m1")], "morphs": [], "bios": [],
+             "incs": [{"href": h, "morphs": [O("m0", 2, [2, 3]), O("m1", 3, [])], "bios": [], "missing": False}]},
+            # definition removed: the reference dangles now
+            {"cells": [cell(0, "m0")], "morphs": [], "bios": [], "incs": [{"href": h, "morphs": [O("m1", 3, [])], "bios": [], "missing": False}]},
+        ])
+    return out
 
 
 def O(i, v, kids=()):
@@ -96,6 +152,12 @@ def fixed_cases():
     out.append({"cells": [{"list": "cells", "id": "c0", "rest": 40, "m": {"attr": "x", "emb": None}, "b": {"attr": "x", "emb": None}}],
                 "morphs": [O("x", 41, [1]), O("x", 42, [2])], "bios": [O("x", 43, [3])],
                 "incs": [{"href": "inc0.nml", "morphs": [O("x", 44, [4])], "bios": [O("x", 45, [5]), O("x", 46, [6])], "missing": False}]})
+    # 4-8: the definitions live in an included file, one case per file form the loader accepts
+    for k, form in enumerate(FORMS):
+        out.append({"cells": [{"list": "cells", "id": "c0", "rest": 50 + k, "m": {"attr": "m0", "emb": None}, "b": {"attr": "b0", "emb": None}},
+                              {"list": "cells2", "id": "k0", "rest": 60 + k, "m": {"attr": "m0", "emb": None}, "b": {"attr": None, "emb": None}}],
+                    "morphs": [], "bios": [],
+                    "incs": [{"href": "inc0" + form, "morphs": [O("m0", 70 + k, [1, 2])], "bios": [O("b0", 80 + k, [3])], "missing": False}]})
     return out
 
 
@@ -301,10 +363,39 @@ def run(ck):
     g = Gen(ck.rng)
     cases = fixed_cases() + [g.case() for _ in range(ck.n(200, 2000))]
     for i, c in enumerate(cases):
-        c["via_parser"] = i < ck.n(80, 400)  # also through NeuroMLXMLParser.parse (file -> include resolution -> fix)
+        # also through NeuroMLXMLParser.parse (file -> include resolution -> fix), for the file forms an <include> may have there
+        c["via_parser"] = i < ck.n(80, 400) and all(f["href"].endswith(PARSER_FORMS) and not f["href"].endswith((".h5",)) or
+                                                    f["href"].endswith(".nml.h5") for f in c["incs"])
     results = []
     for i in range(0, len(cases), 500):
         results += ck.impl("c17_impl.py", {"cases": cases[i:i + 500]}, timeout=1500)["results"]
+    # ---- histories: several calls in ONE process, the included files rewritten between the calls; every call must behave as
+    #      if it were the only one (the model's `load` is a function of the files at call time)
+    hists = fixed_histories() + [g.history() for _ in range(ck.n(12, 120))]
+    hout = ck.impl("c17_impl.py", {"histories": hists}, timeout=1500)["histories"]
+    steps = [(hi, si, st) for hi, h in enumerate(hists) for si, st in enumerate(h)]
+    fresh = ck.impl("c17_impl.py", {"cases": [st for _, si, st in steps if si > 0], "fork": True}, timeout=1500)["results"]
+    fresh_it = iter(fresh)
+    for hi, si, st in steps:
+        res = hout[hi]["steps"][si]
+        st["history"] = [hi, si]
+        cases.append(st)
+        results.append(res)
+        ck.tally("history-call:%d" % si)
+        if si > 0:
+            fr = next(fresh_it)
+            for m in ("true", "false"):
+                a = {k: res[m][k] for k in ("outcome", "input_after", "output", "out_lists")}
+                b = {k: fr[m][k] for k in ("outcome", "input_after", "output", "out_lists")}
+                if a != b:
+                    ck.witness("C17:result-depends-on-earlier-calls", "a call gives another result after earlier calls in the same process "
+                               "(the included file was rewritten in between) than in a fresh process",
+                               input={"history": hists[hi][:si + 1], "overwrite": m == "true"}, expected=b, observed=a)
+    for hi, h in enumerate(hout):
+        if h["copies_shared_between_calls"]:
+            ck.witness("C17:copies-shared-between-calls", "copies embedded by different calls share objects", input={"history": hists[hi]},
+                       expected=False, observed=True)
+    ck.extra["histories"] = len(hists)
     flat = []
     for ci, (case, res) in enumerate(zip(cases, results)):
         for ow in (True, False):
@@ -358,6 +449,19 @@ def run(ck):
 
 
 def replay(ck, data):
+    hist = (data.get("input") or {}).get("history")
+    if hist:
+        h = ck.impl("c17_impl.py", {"histories": [hist]})["histories"][0]
+        fr = ck.impl("c17_impl.py", {"cases": [hist[-1]], "fork": True})["results"][0]
+        last = h["steps"][-1]
+        diff = [m for m in ("true", "false") if any(last[m][k] != fr[m][k] for k in ("outcome", "input_after", "output", "out_lists"))]
+        bad = predicate(hist[-1], last)
+        print(json.dumps({"stored": {k: data.get(k) for k in ("key", "what")},
+                          "last_call_in_history": {m: {"outcome": last[m]["outcome"], "output": last[m]["output"]} for m in ("true", "false")},
+                          "same_call_in_fresh_process": {m: {"outcome": fr[m]["outcome"], "output": fr[m]["output"]} for m in ("true", "false")},
+                          "differs_for_overwrite": diff, "copies_shared_between_calls": h["copies_shared_between_calls"],
+                          "property_failures_now": [b[:2] for b in bad]}, indent=1)[:6000])
+        return 1 if (diff or bad or h["copies_shared_between_calls"]) else 0
     case = (data.get("input") or {}).get("case")
     if not case:
         print(json.dumps(data, indent=1)[:4000])
